@@ -434,7 +434,7 @@ func fedBody(c *runner.Ctx) {
 			r.val, _, r.err = gateway.Execute(rctx, q, nil)
 			r.done = true
 			r.doneAt = simrt.Now()
-			simrt.Logf("request %d done err=%v", r.idx, r.err)
+			simrt.Logf("request %d done err=%s", r.idx, errLine(r.err))
 		}()
 	}
 	for i := 0; i < 300 && finished < len(reqs); i++ {
